@@ -86,6 +86,21 @@ Check =
     `nameless_refs_leg` (the partition equals the one of the same transforms without them), besides oracle (b)
     and the model correspondence (a), which reads an integral float in a fixed list as the int it equals.
     Distribution keys `fixed-id-0:*`, `leg-e:*`, `fixed-lists-read-from:*`.
+(f) strands whose rows have very different bases (added after seeded change C08-4: the stripe
+    `_SortByMeasureHelper._measure` keyed 'percent_stderr' on table_proportion_stddevs, "strictly proportional"
+    to the std-error - which it is only when every row has the same base.  It was noticed only as a broken
+    source-text obligation: the MR strands of the main stream have <= 40 respondents and one missing rate (20%)
+    for every item, so sqrt(p(1-p)) and sqrt(p(1-p)/N) ordered the rows alike).  "All data sets; every sortable
+    measure keyword; both directions; strands": the order is that of the values of the NAMED public measure,
+    whatever another measure would say.  Class added (`gen_uneven_bases_cases`, own generator state):
+    multiple-response strands of 2..6 items, 30..250 respondents, each item with its OWN missing rate (0 .. 97%,
+    one item (almost) complete and one (almost) entirely missing: weighted bases differing by a factor >= 5) and
+    its own share of 'selected' (5 .. 90%), drawn again until some pair of rows is ordered one way by p(1-p) and
+    the other way by p(1-p)/N; every such response is sorted by EVERY keyword of the stripe helper's table (read
+    from the source), once descending (direction absent on a third) and once ascending, through oracle (b) -
+    monotone in the public measure the keyword names, as the same partition without transforms reports it, ties
+    free - and the model correspondence (a).  Distribution keys `stream:mr-strand-uneven-item-bases`,
+    `uneven-bases:<keyword>:<direction>`, `uneven-bases:rows:*`; `uneven_bases_keywords_not_exercised` must be [].
 """
 import copy
 import json
@@ -407,6 +422,85 @@ def gen_repeat_case(rng, k, tables, kw_cycle):
             o["fixed"] = {"top": top, "bottom": bottom}
     case["repeats"] = True
     return case
+
+
+# leg (f): MR strands whose rows have very different bases (per-item missing data)
+UNEVEN_MISSING_RATES = (0.0, 0.0, 0.03, 0.3, 0.6, 0.85, 0.93, 0.97)
+UNEVEN_SELECTED_RATES = (0.05, 0.1, 0.2, 0.35, 0.5, 0.5, 0.65, 0.8, 0.9)
+
+
+def uneven_mr_strand(rng, tries=25):
+    """-> (response, variable, facts): a multiple-response strand of 2..6 items answered by very different
+    numbers of respondents: per item an own missing rate (at least one item almost complete, at least one
+    almost entirely missing: weighted bases differing by a factor >= 5 where possible) and an own share of
+    'selected' - so that p, p(1-p), p(1-p)/N, N and the counts order the rows differently.  facts (from the
+    survey, for the coverage record only): base ratio, whether some pair of rows is ordered one way by
+    p(1-p) and the other way by p(1-p)/N (what separates the std-dev from the std-error keywords), and
+    whether some pair is ordered differently by the weighted count and by the proportion."""
+    best = None
+    for _ in range(tries):
+        n_items = rng.randint(2, 6)
+        v = gen.make_mr(rng, "rowv", n_items=n_items)
+        numeric = rng.random() < 0.35
+        n = rng.choice([30, 60, 120, 250])
+        sv = gen.Survey([v], n, rng, numvars=["x"] if numeric else [],
+                        weighted=rng.random() < 0.6, zero_weights=rng.random() < 0.5)
+        miss = [rng.choice(UNEVEN_MISSING_RATES) for _ in v.items]
+        lo, hi = rng.sample(range(n_items), 2)
+        miss[lo], miss[hi] = rng.choice((0.0, 0.03)), rng.choice((0.85, 0.93, 0.97))
+        psel = [rng.choice(UNEVEN_SELECTED_RATES) for _ in v.items]
+        for r in sv.resp:
+            r["ans"]["rowv"] = [gen.MIS if rng.random() < miss[i]
+                                else gen.SEL if rng.random() < psel[i] else gen.OTH
+                                for i in range(n_items)]
+        sel = [sum((r["w"] for r in sv.resp if r["ans"]["rowv"][i] == gen.SEL), gen.Fraction(0))
+               for i in range(n_items)]
+        bases = [sum((r["w"] for r in sv.resp if r["ans"]["rowv"][i] != gen.MIS), gen.Fraction(0))
+                 for i in range(n_items)]
+        pos = [i for i in range(n_items) if bases[i] > 0]
+        p = {i: sel[i] / bases[i] for i in pos}
+        var = {i: p[i] * (1 - p[i]) for i in pos}
+        facts = {
+            "base_ratio_ge_5": bool(pos) and max(bases) >= 5 * min(bases[i] for i in pos),
+            "stddev_and_stderr_discordant": any(
+                var[i] < var[j] and var[i] / bases[i] > var[j] / bases[j] for i in pos for j in pos),
+            "count_and_percent_discordant": any(
+                sel[i] < sel[j] and p[i] > p[j] for i in pos for j in pos),
+        }
+        resp = gen.cube_response(sv, ["rowv"],
+                                 measures=("count", "mean", "sum", "stddev") if numeric else ("count",),
+                                 numvar="x" if numeric else None)
+        best = (resp, v, facts)
+        if facts["base_ratio_ge_5"] and facts["stddev_and_stderr_discordant"]:
+            break
+    return best
+
+
+def gen_uneven_bases_cases(rng, k0, tables):
+    """leg (f): ONE multiple-response strand with heavily uneven per-item bases, sorted by EVERY keyword of
+    the stripe sort helper's table in both directions (one case per keyword and direction; 'descending' is
+    left to the default on a third of them); hides / prune on 20%, fixed lists on 15% of the cases"""
+    resp, v, facts = uneven_mr_strand(rng)
+    ids = dim_ids(v, "items")
+    cases = []
+    for kw in tables.keywords("strand"):
+        for direction in ("descending", "ascending"):
+            tdim = {}
+            if rng.random() < 0.2:
+                decorate_dim(rng, v, "items", tdim)
+            o = make_order(rng, "strand", ids, None, None, None, tables, kw, force_type="univariate_measure",
+                           p_fixed=0.15)
+            o["measure"] = kw
+            o.pop("direction", None)
+            if direction == "ascending" or rng.random() < 0.67:
+                o["direction"] = direction
+            tdim["order"] = o
+            population = rng.choice([1000, 7.5, 1, 250000]) if "population" in kw or rng.random() < 0.1 else None
+            cases.append({"k": k0 + len(cases), "response": copy.deepcopy(resp),
+                          "transforms": {"rows_dimension": tdim}, "strand": True, "population": population,
+                          "kinds": ["mr"], "malformed": False,
+                          "uneven_bases": dict(facts, keyword=kw, direction=direction)})
+    return cases
 
 
 def raw_insertions(case, key):
@@ -1489,7 +1583,8 @@ def compare_model(v, dec, obs, exp):
 
 def _replayable(case):
     return {k: case.get(k) for k in ("response", "transforms", "strand", "population", "k", "kinds",
-                                     "repeats", "population_difference", "stale_refs", "zero_ids")}
+                                     "repeats", "population_difference", "stale_refs", "zero_ids",
+                                     "uneven_bases") if k in case or k != "uneven_bases"}
 
 
 def observe_run(case, transforms):
@@ -1586,6 +1681,9 @@ def run_cases(rep, cases, tables):
             rep.dist("stream:population-difference-subtotals")
         rep.dist("strand" if case["strand"] else "slice")
         rep.dist("kinds:" + "x".join(str(x) for x in case.get("kinds") or []))
+        ub = case.get("uneven_bases")
+        if ub:
+            rep.dist("stream:mr-strand-uneven-item-bases")
         rep.sample({"transforms": case["transforms"], "strand": case["strand"],
                     "population": case.get("population")})
         for v in p["views"]:
@@ -1644,6 +1742,15 @@ def run_cases(rep, cases, tables):
                     rep.dist("with-hidden-elements")
                 if v.m.array:
                     rep.dist("sorted-dimension-is-array")
+                if ub:
+                    # leg (f): keyword x direction met with a resolvable key on rows of very different bases
+                    rep.dist("uneven-bases:%s:%s" % (ub["keyword"], ub["direction"]))
+                    for f in ("base_ratio_ge_5", "stddev_and_stderr_discordant", "count_and_percent_discordant"):
+                        if ub.get(f):
+                            rep.dist("uneven-bases:rows:" + f)
+                    vals = [x for x in bv if not is_nan(x)]
+                    if len(set(vals)) > 1:
+                        rep.dist("uneven-bases:named-measure-has-distinct-values")
             if case.get("zero_ids") and exp[0] in ("sorted", "payload"):
                 got_o = p["obs"][v.axis + "_order"]
                 zero_id_coverage(rep, case, v, exp, got_o[1] if got_o[0] == "ok" else [])
@@ -1923,6 +2030,11 @@ def run(tier, seed):
     n_zero = 110 if tier == "quick" else 1100
     for n in range(n_zero):
         cases += gen_zero_id_cases(rng_z, len(cases), tables, n)
+    # leg (f): MR strands with heavily uneven per-item bases x every strand keyword x both directions
+    rng_ub = random.Random("C08-uneven-item-bases-%s" % seed)
+    n_uneven = 12 if tier == "quick" else 150
+    for n in range(n_uneven):
+        cases += gen_uneven_bases_cases(rng_ub, len(cases), tables)
     coq_s, n_terms = run_cases(rep, cases, tables)
     s2, n2 = run_scope(rep, rng, 600 if tier == "quick" else 7500)
     coq_s, n_terms = coq_s + s2, n_terms + n2
@@ -1932,6 +2044,10 @@ def run(tier, seed):
     # every sortable keyword must have been exercised with a resolvable key
     missing = [c for c in cycle if not rep.cov["distribution"].get("keyword:" + c)]
     rep.cov["keywords_not_exercised"] = missing
+    # ... and, leg (f), on a strand whose rows have very different bases, in both directions
+    rep.cov["uneven_bases_keywords_not_exercised"] = [
+        "%s:%s" % (kw, d) for kw in tables.keywords("strand") for d in ("descending", "ascending")
+        if not rep.cov["distribution"].get("uneven-bases:%s:%s" % (kw, d))]
     # the two situations of the former finding must have been met (with a resolvable key)
     rep.cov["population_difference_classes_not_exercised"] = [
         c for c in ("population:difference-beside-valued-subtotal", "population:key-at-opposing-difference")
@@ -1965,6 +2081,12 @@ def run(tier, seed):
         "z-score / index; 'mean' with numeric measures 30%), direction ascending 45% / descending 40% / absent, subtotals on 60% of the categorical "
         "dimensions, hides 25% (element 0 itself 10% of them), prune 20%, falsy-looking references that name "
         "nothing ('' / '0', and 0 / 0.0 where there is no element 0) in 45% (100% without element 0) of the lists; "
+        "+ leg (f) (uneven-bases:* keys, own generator state): N_UNEVEN MR strands of 2..6 items, 30 / 60 / 120 / 250 "
+        "respondents (weighted 60%, numeric measures 35%), per item an own missing rate from 0 / 3 / 30 / 60 / 85 / "
+        "93 / 97% (one item 0-3%, one 85-97%) and share of 'selected' 5..90%, redrawn (<= 25 times) until the bases "
+        "differ by a factor >= 5 and some pair of rows is ordered differently by p(1-p) and by p(1-p)/N; each "
+        "sorted by every strand keyword of the source table x descending (absent 33%) / ascending, hides / prune "
+        "on 20%, fixed lists on 15% of the cases; "
         "+ small scope on SortByValueCollator.display_order itself: "
         "value patterns {NaN,-inf,0,1,+inf}^4 x direction x 6 fixed configurations, two of them with repeated "
         "ids (subtotal values, hidden "
@@ -1983,7 +2105,7 @@ def run(tier, seed):
         "a CubeSet 18%; every sequence is run a second time with a pristine deep copy per cube (reference); "
         "non-trivial there = a fixed-list id reference names an item in two cubes with other aliases, or a sorted "
         "axis of the reference run is not in payload order").replace("N_SEQ", str(n_seq)).replace(
-            "N_ZERO", str(n_zero))
+            "N_ZERO", str(n_zero)).replace("N_UNEVEN", str(n_uneven))
     rep.cov["coq_eval_seconds"] = round(coq_s, 2)
     rep.cov["model_terms_evaluated"] = n_terms
     rep.assumptions = [
